@@ -52,7 +52,7 @@ def gen_cases(tier, seed):
     for i in range(12 if tier == "quick" else 150):
         d = rng.randrange(1, N)
         for m in ["none", "high_s", "flip_s", "flip_msg", "flag_byte", "pub_65_with_02", "swap_key", "infinity_via_pubkey", "pub_parity_flip"]:
-            yield "sigverify", {"via": "cli", "d": hex(d), "k": hex(rng.randrange(1, N)), "msg": rand_bytes(rng, rng.choice([1, 32, 80])).hex(), "flag": [1, 0x83][i % 2],
+            yield "sigverify", {"via": "cli", "d": hex(d), "k": hex(rng.randrange(1, N)), "msg": rand_bytes(rng, rng.choice([0, 1, 32, 80])).hex(), "flag": [1, 0x83][i % 2],
                                 "pre": i % 2 == 1, "comp": i % 3 != 0, "mut": m, "bit": rng.randrange(0, 2048), "d2": hex(rng.randrange(1, N))}
     for i in range(6 if tier == "quick" else 80):
         yield "sigverify_keys", {"d": hex(rng.randrange(1, N)), "k": hex(rng.randrange(1, N)), "msg": rand_bytes(rng, 32).hex(), "flag": 1, "bit": rng.randrange(1 << 30)}
@@ -66,7 +66,7 @@ def gen_cases(tier, seed):
     for i in range(60 if tier == "quick" else 800):
         d = rng.randrange(1, N)
         z = [0, 1, N - 1, N, N + 1, (1 << 256) - 1, rng.getrandbits(256)][i % 7]
-        yield "ecverify", {"d": hex(d), "k": hex(rng.randrange(1, N)), "z": hex(z), "mut": ["none", "high_s", "flip_r", "flip_s", "flip_z", "offcurve_pt", "infinity", "offcurve_crafted"][i % 8 if i % 11 else 0],
+        yield "ecverify", {"d": hex(d), "k": hex(rng.randrange(1, N)), "z": hex(z), "mut": ["none", "high_s", "flip_r", "flip_s", "flip_z", "offcurve_pt", "infinity", "offcurve_crafted", "endo_opposite", "endo_same_y"][i % 10 if i % 11 else 0],
                            "bit": rng.randrange(256)}
     # ensure_sig_low_s
     for nb in range(1, 33):
@@ -91,7 +91,7 @@ def gen_cases(tier, seed):
 
 def required(tier):
     return {"sigverify.decided": 1500, "sigverify.expected_accept": 150, "sigverify.expected_reject": 1000,
-            "mut.infinity": 20, "keys.class.offcurve_pseudo_root": 10, "keys.class.coord_plus_p": 100, "keys.class.valid": 10, "sigverify.via_cli": 80, "mut.high_s": 50, "mut.pub_65_with_02": 50, "ecverify.decided": 50, "structured.s_asn1_lookalike": 6, "ecverify.offcurve_crafted": 5,
+            "mut.infinity": 20, "keys.class.offcurve_pseudo_root": 10, "keys.class.coord_plus_p": 100, "keys.class.valid": 10, "sigverify.via_cli": 80, "mut.high_s": 50, "mut.pub_65_with_02": 50, "ecverify.decided": 50, "structured.s_asn1_lookalike": 6, "ecverify.offcurve_crafted": 4, "ecverify.endo_digest": 6,
             "lows.decided": 60, "lows.class.short_complement": 20, "small.decided": 100000,
             "small.expected_accept": 100, "small.class.x_ge_n": 10, "small.class.R_infinity": 100}
 
@@ -405,6 +405,22 @@ def _ecverify(ctx, d, k, z, mut, bit, k_for_inf):
             z = _flip(z, bit)
         elif mut == "offcurve_pt":
             pt = (pt[0], (pt[1] + 1 + bit) % P)
+        elif mut in ("endo_opposite", "endo_same_y"):
+            # digest chosen so that the verifier's two partial points u1*G and u2*P are DIFFERENT points with opposite y (or the same y):
+            # z = -lambda * r * d (or +lambda * r * d).  A valid signature like any other; the final addition is the rare one.
+            from .common import LAMBDA
+            lam = LAMBDA if bit % 2 else LAMBDA * LAMBDA % N
+            R_ = secp.pub(k)
+            r = R_[0] % N
+            z = ((-lam if mut == "endo_opposite" else lam) * r * d) % N
+            if z == 0 or r == 0:
+                return
+            s = pow(k, -1, N) * (z + r * d) % N
+            if s == 0:
+                return
+            if bit % 4 >= 2 and z + N < (1 << 256):
+                z += N
+            ctx.count("ecverify.endo_digest")
         elif mut == "offcurve_crafted":
             # an ADVERSARIAL off-curve "public key" (no private key involved): with s = r we get u2 = 1, u1 = z/r, A = u1*G;
             # choose P = (x2, y2) so that the CHORD through A and P has slope lam with lam^2 - x1 - x2 = r.  A verifier
